@@ -110,15 +110,96 @@ Proof.
   - now apply NoDup_remove_2 in H.
 Qed.
 
+Definition disjoint_edges (e e' : cutedge) : Prop := forall x d, In d (on x e) -> ~ In d (on x e').
+Definition ded_in (legacy : bool) (s : cstate) (e : cutedge) : Prop :=
+  ce_a e <> ce_b e /\ dedicated legacy (slookup (ce_a e) s) (slookup (ce_b e) s) (ce_L e).
+
+(** removing a descriptor that is not one of L's keeps L dedicated *)
+Lemma dedicated_remove_src legacy sr tg L u d : NoDup (map fst sr) -> ~ In d (map cp_d L) ->
+  dedicated legacy sr tg L -> dedicated legacy (tbl_remove u d sr) tg L.
+Proof.
+  intros ND Nd D. constructor.
+  - intros c Hc. destruct (ded_src _ _ _ _ D c Hc) as [H1 H2].
+    assert (cp_d c <> d) by (intros E; apply Nd; rewrite <- E; now apply in_map).
+    split.
+    + destruct (Z.eq_dec (cp_u c) u) as [E|N].
+      * rewrite E in *. rewrite tlookup_remove_same. now apply in_remove1_other.
+      * now rewrite tlookup_remove_other.
+    + now rewrite total_cnt_remove_other.
+  - apply (ded_tgt _ _ _ _ D).
+  - apply (ded_compat _ _ _ _ D).
+  - intros u0 ds0 v0 ts0 d0 t0 Hu Hv Hd Ht Hc.
+    destruct (in_tbl_remove _ _ _ _ _ Hu) as [dsA [HA1 HA2]].
+    apply (ded_only _ _ _ _ D _ _ _ _ _ _ HA1 Hv (HA2 _ Hd) Ht Hc).
+  - apply (ded_nodup_d _ _ _ _ D).
+  - apply (ded_nodup_t _ _ _ _ D).
+Qed.
+Lemma dedicated_remove_tgt legacy sr tg L v t : NoDup (map fst tg) -> ~ In t (map cp_t L) ->
+  dedicated legacy sr tg L -> dedicated legacy sr (tbl_remove v t tg) L.
+Proof.
+  intros ND Nt D. constructor.
+  - apply (ded_src _ _ _ _ D).
+  - intros c Hc. destruct (ded_tgt _ _ _ _ D c Hc) as [H1 H2].
+    assert (cp_t c <> t) by (intros E; apply Nt; rewrite <- E; now apply in_map).
+    split.
+    + destruct (Z.eq_dec (cp_v c) v) as [E|N].
+      * rewrite E in *. rewrite tlookup_remove_same. now apply in_remove1_other.
+      * now rewrite tlookup_remove_other.
+    + now rewrite total_cnt_remove_other.
+  - apply (ded_compat _ _ _ _ D).
+  - intros u0 ds0 v0 ts0 d0 t0 Hu Hv Hd Ht Hc.
+    destruct (in_tbl_remove _ _ _ _ _ Hv) as [tsA [HA1 HA2]].
+    apply (ded_only _ _ _ _ D _ _ _ _ _ _ Hu HA1 Hd (HA2 _ Ht) Hc).
+  - apply (ded_nodup_d _ _ _ _ D).
+  - apply (ded_nodup_t _ _ _ _ D).
+Qed.
+
+(** one table of the state loses one descriptor that is foreign to edge e: e stays dedicated *)
+Lemma ded_in_remove legacy s e x u d : wf_state s -> ~ In d (on x e) -> ded_in legacy s e ->
+  ded_in legacy (cset x (tbl_remove u d (slookup x s)) s) e.
+Proof.
+  intros W Nd [Nab D]. split; [assumption|].
+  unfold on in Nd. rewrite in_app_iff in Nd.
+  destruct (cget x s) as [t|er] eqn:E.
+  - pose proof (W (ce_a e)) as NDa. pose proof (W (ce_b e)) as NDb.
+    destruct (Z.eqb_spec x (ce_a e)) as [Ea|Na].
+    + subst x. rewrite (slookup_cset_same _ _ _ _ E).
+      rewrite slookup_cset_other by (intro; apply Nab; congruence).
+      apply dedicated_remove_src; [assumption| |assumption]. intro H. apply Nd. now left.
+    + rewrite (slookup_cset_other (ce_a e) x) by congruence.
+      destruct (Z.eqb_spec x (ce_b e)) as [Eb|Nb].
+      * subst x. rewrite (slookup_cset_same _ _ _ _ E).
+        apply dedicated_remove_tgt; [assumption| |assumption]. intro H. apply Nd. now right.
+      * rewrite slookup_cset_other by congruence. assumption.
+  - (* x is not a key of the state: cset changes nothing *)
+    assert (Hs : forall y, slookup y (cset x (tbl_remove u d (slookup x s)) s) = slookup y s).
+    { intros y. clear - E. induction s as [|[k t'] r IH]; cbn in *; [reflexivity|].
+      destruct (Z.eqb_spec x k); [discriminate|]. cbn. destruct (Z.eqb y k); [reflexivity|]. apply IH. assumption. }
+    now rewrite !Hs.
+Qed.
+
+Lemma on_sub e x d (L' : list cutpair) : (forall c, In c L' -> In c (ce_L e)) ->
+  In d (on x (ce_a e, ce_b e, L')) -> In d (on x e).
+Proof.
+  intros Hsub. unfold on. cbn [ce_a ce_b ce_L fst snd]. rewrite !in_app_iff.
+  intros [H|H]; [left|right].
+  - destruct (Z.eqb x (ce_a e)); [|contradiction]. apply in_map_iff in H as [c [<- Hc]]. apply in_map. auto.
+  - destruct (Z.eqb x (ce_b e)); [|contradiction]. apply in_map_iff in H as [c [<- Hc]]. apply in_map. auto.
+Qed.
+
+
 (** one base edge: the loop creates exactly the cut pairs *)
 Lemma unique_labels_forced_gen legacy arom : forall n L a b s acc s' acc', length L = n ->
   a <> b -> wf_state s -> dedicated legacy (slookup a s) (slookup b s) L ->
   edge_loop legacy arom n a b s acc = Ok (s', acc') ->
-  exists new, acc' = acc ++ new /\ Permutation (map bond_cp new) L /\
-              Forall (fun bd => b_src bd = a /\ b_tgt bd = b) new.
+  (exists new, acc' = acc ++ new /\ Permutation (map bond_cp new) L /\
+              Forall (fun bd => b_src bd = a /\ b_tgt bd = b) new) /\
+  wf_state s' /\
+  (forall e', ded_in legacy s e' -> disjoint_edges (a, b, L) e' -> ded_in legacy s' e').
 Proof.
   induction n as [|k IH]; intros L a b s acc s' acc' HL Nab W D.
-  - destruct L; [|discriminate]. cbn. intros [= <- <-]. exists []. rewrite app_nil_r. split; [reflexivity|]. split; constructor.
+  - destruct L; [|discriminate]. cbn. intros [= <- <-]. split; [|split; [assumption|auto]].
+    exists []. rewrite app_nil_r. split; [reflexivity|]. split; constructor.
   - destruct L as [|c L]; [discriminate|]. cbn [edge_loop].
     destruct (cget a s) as [sr|e] eqn:Ea; cbn [bind]; [|discriminate].
     destruct (cget b s) as [tg|e] eqn:Eb; cbn [bind]; [|discriminate].
@@ -140,12 +221,13 @@ Proof.
       rewrite Sb in Sb1. subst tg1.
       destruct (bond_order arom u v d1) as [o|e] eqn:BO; cbn [bind]; [|discriminate].
       intros Run.
-      set (s2 := cset b (tbl_remove v d2 tg) (cset a (tbl_remove u d1 sr) s)) in *.
-      assert (W1 : wf_state (cset a (tbl_remove u d1 sr) s)) by (rewrite <- Sa; now apply wf_state_cset).
-      assert (Hsb : slookup b (cset a (tbl_remove u d1 sr) s) = tg) by (rewrite slookup_cset_other by congruence; assumption).
+      set (s1 := cset a (tbl_remove u d1 sr) s) in *.
+      set (s2 := cset b (tbl_remove v d2 tg) s1) in *.
+      assert (W1 : wf_state s1) by (unfold s1; rewrite <- Sa; now apply wf_state_cset).
+      assert (Hsb : slookup b s1 = tg) by (unfold s1; rewrite slookup_cset_other by congruence; assumption).
       assert (W2 : wf_state s2) by (unfold s2; rewrite <- Hsb; now apply wf_state_cset).
       assert (Sa2 : slookup a s2 = tbl_remove u d1 sr).
-      { unfold s2. rewrite slookup_cset_other by congruence. now apply (slookup_cset_same _ _ _ sr). }
+      { unfold s2, s1. rewrite slookup_cset_other by congruence. now apply (slookup_cset_same _ _ _ sr). }
       assert (Sb2 : slookup b s2 = tbl_remove v d2 tg).
       { unfold s2. now apply (slookup_cset_same _ _ _ tg). }
       assert (Hlen : length (L1 ++ L2) = length L).
@@ -186,7 +268,23 @@ Proof.
         - assumption.
         - assumption. }
       assert (Hk : length (L1 ++ L2) = k) by (cbn in HL; lia).
-      destruct (IH (L1 ++ L2) a b s2 _ s' acc' Hk Nab W2 D' Run) as [new [Hacc [Hperm Hall]]].
+      destruct (IH (L1 ++ L2) a b s2 _ s' acc' Hk Nab W2 D' Run) as [[new [Hacc [Hperm Hall]]] [Ws' Hothers]].
+      split; [|split; [assumption|]].
+      2:{ intros e' De' Dis. apply Hothers.
+          - (* e' survives the removal of d1 from a's table and of d2 from b's table *)
+            assert (Hin1 : In d1 (on a (a, b, c :: L))).
+            { unfold on. cbn [ce_a ce_b ce_L fst snd]. rewrite Z.eqb_refl. apply in_or_app. left.
+              rewrite <- Ed. now apply in_map. }
+            assert (Hin2 : In d2 (on b (a, b, c :: L))).
+            { unfold on. cbn [ce_a ce_b ce_L fst snd]. rewrite Z.eqb_refl. apply in_or_app. right.
+              rewrite <- Et. now apply in_map. }
+            pose proof (ded_in_remove legacy s e' a u d1 W (Dis a d1 Hin1) De') as De1.
+            rewrite Sa in De1. fold s1 in De1.
+            pose proof (ded_in_remove legacy s1 e' b v d2 W1 (Dis b d2 Hin2) De1) as De2.
+            rewrite Hsb in De2. exact De2.
+          - intros x d Hd. apply Dis. apply (on_sub (a, b, c :: L) x d (L1 ++ L2)); [|exact Hd].
+            cbn [ce_L snd]. intros y Hy. rewrite EL. apply in_app_or in Hy. apply in_or_app.
+            destruct Hy; [now left|right; now right]. }
       exists ({| b_src := a; b_tgt := b; b_u := u; b_v := v; b_d1 := d1; b_d2 := d2; b_order := o |} :: new).
       split; [rewrite Hacc, <- app_assoc; reflexivity|]. split.
       * cbn [map]. rewrite EL.
@@ -208,7 +306,10 @@ Theorem unique_labels_forced legacy arom : forall L a b s acc s' acc',
   edge_loop legacy arom (length L) a b s acc = Ok (s', acc') ->
   exists new, acc' = acc ++ new /\ Permutation (map bond_cp new) L /\
               Forall (fun bd => b_src bd = a /\ b_tgt bd = b) new.
-Proof. intros L. intros. eapply unique_labels_forced_gen; eauto. Qed.
+Proof.
+  intros L a b s acc s' acc' Nab W D Run.
+  exact (proj1 (unique_labels_forced_gen legacy arom (length L) L a b s acc s' acc' eq_refl Nab W D Run)).
+Qed.
 
 (** the executable test of the hypothesis is sound *)
 Lemma str_in_In x l : str_in x l = true -> In x l.
